@@ -231,8 +231,23 @@ def execute(versions, start, rfault, fsfail, algo="SHA1", repo_obj=None):
             ds.os = os
             tempfile.tempdir = old_tmp
         after = open(local, encoding="utf-8").read() if os.path.exists(local) else None
-        return {"exc": exc, "result": r, "before": before, "after": after,
-                "leftovers": sorted(os.listdir(work)), "tmp_leftovers": sorted(os.listdir(tmpd)), "env": env}
+        res = {"exc": exc, "result": r, "before": before, "after": after,
+               "leftovers": sorted(os.listdir(work)), "tmp_leftovers": sorted(os.listdir(tmpd)), "env": env}
+        if exc is not None and env.fired and rfault is None:
+            # the fault was transient: the same call again, on the same directory, without any fault
+            tempfile.tempdir = tmpd
+            try:
+                try:
+                    r2 = ds.update_file("file://" + os.path.join(repo, "Packages"), local)
+                    exc2 = None
+                except Exception as e:
+                    r2, exc2 = None, e
+            finally:
+                tempfile.tempdir = old_tmp
+            after2 = open(local, encoding="utf-8").read() if os.path.exists(local) else None
+            res["retry"] = {"exc": exc2, "result": r2, "after": after2, "leftovers": sorted(os.listdir(work)),
+                            "tmp_leftovers": sorted(os.listdir(tmpd))}
+        return res
     finally:
         tempfile.tempdir = old_tmp
         shutil.rmtree(d, ignore_errors=True)
@@ -315,6 +330,15 @@ def _judge(versions, start, rfault, fsfail, res):
     if must_raise and exc is None:
         bad.append(("update/error-swallowed/" + ftag, "an error (fault fired: %r, path %r)" % (env.fired, path),
                     "returned normally"))
+    rt = res.get("retry")
+    if rt is not None and not bad:
+        if rt["exc"] is not None:
+            bad.append(("update/retry-after-fault/raises/" + ftag, "the fault-free retry converges",
+                        "%s: %s" % (type(rt["exc"]).__name__, rt["exc"])))
+        elif rt["result"] != cur or rt["after"] != "".join(cur):
+            bad.append(("update/retry-after-fault/wrong-content/" + ftag, cur, (rt["result"], rt["after"])))
+        elif rt["leftovers"] != ["local"] or rt["tmp_leftovers"]:
+            bad.append(("update/retry-after-fault/leftovers/" + ftag, ["local"], (rt["leftovers"], len(rt["tmp_leftovers"]))))
     return bad
 
 
@@ -330,6 +354,10 @@ def run_case(case, repo_obj=None):
 # ---------------------------------------------------------------- units
 
 LINES = ["a\n", "b\n", "c\n"]
+
+
+def LINESET(seed):
+    return [LINES, ["x y\n", "b\n", "é\n"], ["Package: a\n", "b\n", " c\n"], ["1\n", "22\n", "333\n"]][seed % 4]
 
 
 def all_lists(maxlen, seed):
@@ -348,6 +376,9 @@ def histories(tier, seed):
     out = [[a, b] for a in l2 for b in l2 if a != b]
     core7 = l2[:7]
     out += [[a, b, c] for a in core7 for b in core7 for c in core7 if a != b and b != c]
+    # one long file (two-digit ed addresses): edits at lines 9-12 and at the top
+    L = [LINESET(seed)[0].replace("\n", "%d\n" % i) for i in range(1, 13)]
+    out.append([L, L[:8] + ["x\n"] + L[9:], L[:8] + ["x\n"] + L[9:11], ["y\n"] + L[:8] + ["x\n"] + L[9:11]])
     core3 = l2[:3]
     out += [[a, b, c, e] for a in core3 for b in core3 for c in core3 for e in core3
             if a != b and b != c and c != e]
